@@ -31,6 +31,10 @@ RULE = (
     "notation of a given --print-format: ISO dump syntax with template or "
     "literal zones, or strftime directives), to the fields shifted on "
     "vlib.refcal (exact part, then months, then years, per offset in order). "
+    "kind 'shift_pf': the same for a date-time written in a strptime "
+    "notation - a custom --parse-format over the supported directives, or "
+    "the documented ctime form tried by default - whose output must use that "
+    "same format. "
     "kind 'diff': two date-times (one case in four with dyadic decimal "
     "fractions of the smallest time unit; then within 1 us) with offsets1/2: "
     "the "
@@ -306,6 +310,41 @@ def check_case_inner(case):
                 classes.append("ref/" + case["ref_via"])
             if moved:
                 classes.append("crosses_day")
+        elif kind == "shift_pf":
+            # a date-time written in a strptime notation: a custom
+            # --parse-format over the supported directives, or the documented
+            # ctime form tried by default; the output uses the same format
+            fmt, kw0 = case["fmt"], case["p"]
+            utc = "--utc" in argv
+            zone = (kw0["time_zone_hour"], kw0["time_zone_minute"]) \
+                if "%z" in fmt else ((0, 0) if (utc or case["ctime"])
+                                     else expected_local(tuple(sys_cfg)))
+            start = dict(kw0, time_zone_hour=zone[0], time_zone_minute=zone[1])
+            if "%j" in fmt:
+                # %j makes an ordinal-date point (year steps keep the day of
+                # the year, not month and day)
+                start = dict(start, **G.spell_date(cm, M.kw_dn(cm, start), "o"))
+                del start["month_of_year"], start["day_of_month"]
+            if utc and zone != (0, 0):
+                start = to_zone(cm, start, (0, 0))
+            end = apply_offsets(cm, start, case["offsets"])
+            if case["ctime"]:
+                import datetime
+                from vlib.checks import c17
+                c = c17.civil(cm, end)
+                exp = datetime.datetime(c["Y"], c["m"], c["d"], c["H"], c["M"],
+                                        c["S"]).strftime(fmt)
+            else:
+                from vlib.checks import c17
+                exp = c17.posix(cm, end, fmt)
+            if out != exp + "\n":
+                fail = ("shift_pf: mode %s %s printed %r, expected %r" % (
+                    mode, shown, out, exp + "\n"))
+            nontrivial = True
+            classes += ["parse_format/" + ("ctime" if case["ctime"] else fmt),
+                        "offsets/%d" % len(case["offsets"])]
+            if utc:
+                classes.append("utc")
         elif kind == "diff":
             a1, a2 = case["arg1"], case["arg2"]
             utc = "--utc" in argv
@@ -594,6 +633,48 @@ def st_shift(draw):
             "ref_via": ref_via, "print": pr}
 
 
+PARSE_FORMATS = ["%d/%m/%Y %H:%M:%S", "%Y-%j %H%M%S %z", "%F %H:%M%z",
+                 "%Y%m%d%H", "%H:%M:%S %d.%m.%Y %z", "%Y%m%dT%H%M%S%z"]
+CTIME = "%a %b %d %H:%M:%S %Y"
+
+
+@st.composite
+def st_shift_pf(draw):
+    mode, via, margv, env = draw(st_mode())
+    cm = mode or "gregorian"
+    ctime = cm == "gregorian" and draw(st.integers(0, 2)) == 0
+    fmt = CTIME if ctime else draw(st.sampled_from(PARSE_FORMATS))
+    kw = draw(G.st_point_kw(cm, forms=("hms",), reps="c", years=st.one_of(
+        st.integers(1000, 9000), st.integers(1990, 2030))))
+    # parts the format does not spell default to the start of the period
+    if "%S" not in fmt:
+        kw["second_of_minute"] = 0
+    if "%M" not in fmt:
+        kw["minute_of_hour"] = 0
+    if "%z" not in fmt:
+        kw["time_zone_hour"] = kw["time_zone_minute"] = 0
+    kw["num_expanded_year_digits"] = 0
+    offs = draw(st_offsets(False))
+    from vlib.checks import c17
+    if ctime:
+        import datetime
+        c = c17.civil(cm, kw)
+        text = datetime.datetime(c["Y"], c["m"], c["d"], c["H"], c["M"],
+                                 c["S"]).strftime(fmt)
+    else:
+        text = c17.posix(cm, kw, fmt)
+    argv = list(margv) + flat(spell_offsets(draw, offs))
+    if not ctime:
+        style = draw(st.sampled_from(["--parse-format=", "-p"]))
+        argv += [style + fmt] if style.endswith("=") else [style, fmt]
+    if draw(st.integers(0, 3)) == 0:
+        argv.append("--utc")
+    argv += ["--", text]
+    return {"kind": "shift_pf", "mode": mode, "mode_via": via, "argv": argv,
+            "env": env, "sys": list(draw(SYS)), "fmt": fmt, "ctime": ctime,
+            "p": kw, "offsets": offs}
+
+
 @st.composite
 def st_diff(draw):
     mode, via, margv, env = draw(st_mode())
@@ -760,3 +841,4 @@ def run_shard(ctx):
     ctx.hyp(st_diff(), check_case, n // 2, seed_salt=1)
     ctx.hyp(st_recur(), check_case, n // 4, seed_salt=2)
     ctx.hyp(st_bad(), check_case, n // 2, seed_salt=3)
+    ctx.hyp(st_shift_pf(), check_case, n // 4, seed_salt=4)
